@@ -175,7 +175,8 @@ pub open spec fn aug_step(ch: u8, st: AugSt, b: PeBases, sec_start: nat, asz: u8
         Some(AugSt { first: true, sig: true, ..st })
     } else { None }
 }
-/// the whole string `s` from character i on
+/// the whole string `s` from character i on (opaque: only Augmentation::parse needs to unfold it)
+#[verifier::opaque]
 pub open spec fn aug_fold(s: RView, i: nat, st: AugSt, b: PeBases, sec_start: nat, asz: u8) -> Option<AugSt>
     decreases s.len - i
 {
